@@ -76,6 +76,9 @@ func NewTask(workflow *Workflow, process *Process, name string, cmdPat string, i
 		}
 		t.OutIPs[oname] = oip
 	}
+	for _, oip := range t.OutIPs {
+		oip.tempBaseDir = t.TempDir()
+	}
 	t.Command = t.formatCommand(cmdPat, portInfos, inIPs, t.subStreamIPs, t.OutIPs, params, tags, prepend)
 	return t
 }
